@@ -92,6 +92,9 @@ pub struct Case {
     /// free-form tags a generator attaches (echoed into the trace)
     #[serde(default)]
     pub tags: Value,
+    /// header variant per file (see `header_variant`); missing = canonical
+    #[serde(default)]
+    pub hdr: Vec<u32>,
 }
 
 pub const EPOCH_JD: i32 = 2440588; // Julian day of 1970-01-01
@@ -181,11 +184,69 @@ pub fn row_cells(r: &Row) -> Vec<String> {
 }
 
 pub fn csv_text(rows: &[Row]) -> String {
-    let mut s = HEADER.join(",");
+    csv_text_variant(rows, 0)
+}
+
+/// Column order (indices into HEADER, usize::MAX = an unrecognised extra column) and the way the
+/// header cells are written, for header variant v (property C07: none of this may matter).
+pub fn header_variant(v: u32) -> (Vec<usize>, fn(&str) -> String) {
+    fn same(s: &str) -> String {
+        s.to_string()
+    }
+    fn upper(s: &str) -> String {
+        s.to_uppercase()
+    }
+    fn padded(s: &str) -> String {
+        format!("  {} ", s)
+    }
+    fn mixed(s: &str) -> String {
+        s.chars().enumerate().map(|(i, c)| if i % 2 == 0 { c.to_ascii_uppercase() } else { c }).collect::<String>() + " "
+    }
+    let n = HEADER.len();
+    let canonical: Vec<usize> = (0..n).collect();
+    match v % 6 {
+        0 => (canonical, same),
+        1 => (canonical, upper),
+        2 => (canonical, padded),
+        3 => ((0..n).rev().collect(), same),
+        4 => {
+            // unrecognised columns at the front, in the middle and at the end
+            let mut c = vec![usize::MAX];
+            c.extend(0..5);
+            c.push(usize::MAX);
+            c.extend(5..n);
+            c.push(usize::MAX);
+            (c, same)
+        }
+        _ => {
+            // rotate the columns, mixed case, and an unrecognised column in between
+            let mut c: Vec<usize> = (7..n).chain(0..7).collect();
+            c.insert(3, usize::MAX);
+            (c, mixed)
+        }
+    }
+}
+
+pub fn csv_text_variant(rows: &[Row], variant: u32) -> String {
+    let (cols, style) = header_variant(variant);
+    let mut extra = 0;
+    let hdr: Vec<String> = cols
+        .iter()
+        .map(|&c| {
+            if c == usize::MAX {
+                extra += 1;
+                style(&format!("broker note {}", extra))
+            } else {
+                style(HEADER[c])
+            }
+        })
+        .collect();
+    let mut s = hdr.join(",");
     s.push('\n');
     for r in rows {
-        let cells: Vec<String> = row_cells(r).iter().map(|c| csv_cell(c)).collect();
-        s.push_str(&cells.join(","));
+        let cells = row_cells(r);
+        let line: Vec<String> = cols.iter().map(|&c| if c == usize::MAX { "n/a 1,5".to_string() } else { cells[c].clone() }).map(|c| csv_cell(&c)).collect();
+        s.push_str(&line.join(","));
         s.push('\n');
     }
     s
